@@ -554,7 +554,16 @@ func (sl StructLiteral) Coq(needs_paren bool) string {
 		if i == len(sl.elts)-1 {
 			terminator = ""
 		}
-		pp.Add("%s ::= %s%s", quote(f.Field), f.Value.Coq(false), terminator)
+		// f ::= v is a notation at level 60: a comparison (level 70) as the
+		// value would take the pair as its left operand
+		paren := false
+		if b, ok := f.Value.(BinaryExpr); ok {
+			switch b.Op {
+			case OpEquals, OpNotEquals, OpLessThan, OpGreaterThan, OpLessEq, OpGreaterEq:
+				paren = true
+			}
+		}
+		pp.Add("%s ::= %s%s", quote(f.Field), f.Value.Coq(paren), terminator)
 	}
 	pp.Indent(-2)
 	pp.Add("]")
